@@ -378,4 +378,44 @@ def WrapperOK (n : Str) (st : AStore) (sc : Bool) (kids : List FNode) : Prop :=
 instance (n : Str) (st : AStore) (sc : Bool) (kids : List FNode) : Decidable (WrapperOK n st sc kids) := by
   unfold WrapperOK; infer_instance
 
+/-- **the formatter's output text**: for every token sequence whose plain-parser tree is the strict document
+    `u` (single- or multi-root), `getHTML` of the formatter is the rendering of `docToks` in the class's style -/
+theorem format_text (cfg : Cfg) (toks : List Tok) (h : NoWrapperStart toks) (ps : St)
+    (hp : Plain.feed toks = .ok ps) (n : Str) (st : AStore) (sc : Bool) (kids : List FNode)
+    (hroot : ps.root = some (FNode.elem n st sc kids).toNode) (hw : WrapperOK n st sc kids)
+    (hs : (FNode.elem n st sc kids).Strict) :
+    format cfg toks = .ok (renderToksY (styleOf cfg.kind) (docToks cfg ps.doctype n st sc kids)) := by
+  have ht := format_tree cfg toks h
+  rw [hp] at ht
+  obtain ⟨fs, hf, hr, hd⟩ := ht
+  have hfmt : format cfg toks = docHTML fs.doctype fs.root := by simp [format, hf]
+  rw [hfmt, hr, hd, hroot]
+  unfold docToks
+  by_cases hn : n = wrapper
+  · obtain ⟨_, hsc, _⟩ := hw hn
+    subst hn; subst hsc
+    simp only [if_true]
+    exact doc_render_multi cfg ps.doctype st kids hs
+  · simp only [hn, if_false]
+    exact doc_render cfg ps.doctype n st sc kids hn hs
+
+/-- the token sequence of a strict single-root document: doctype declaration, then the tokens of the tree — what
+    `lexStrict` returns on every serialisation of such a document (C01) -/
+def strictToks (dt : Option Str) (u : FNode) : List Tok := (dtToks dt ++ u.toks).map Tok.ofToken
+
+/-- the plain parser builds the tree from its token sequence -/
+theorem plain_feed_strictToks (dt : Option Str) (hdt : DtOK dt) (n : Str) (st : AStore) (sc : Bool)
+    (kids : List FNode) (hs : (FNode.elem n st sc kids).Strict) :
+    Plain.feed (strictToks dt (.elem n st sc kids)) = .ok ⟨[], some (FNode.elem n st sc kids).toNode, dt, 0, 0⟩ := by
+  have hrun : Plain.run (strictToks dt (.elem n st sc kids)) {}
+      = .ok ⟨[], some (FNode.elem n st sc kids).toNode, dt, 0, 0⟩ := by
+    unfold strictToks
+    rw [List.map_append, plain_run_dt dt hdt]
+    have := plain_root n st sc kids (strict_buildable _ hs) dt 0 0 []
+    simp only [List.append_nil] at this
+    rw [this]; rfl
+  unfold Plain.feed
+  rw [hrun]
+
+
 end AHP.Fmt
